@@ -69,6 +69,9 @@ func (r *Run) add(verdict, rule, fn, construct, detail, pos string, path []strin
 	}
 	o := &Obligation{Rule: rule, Func: fn, Construct: construct, Verdict: verdict, Detail: detail, Pos: pos, Path: path}
 	r.Obls = append(r.Obls, o)
+	if os.Getenv("OLINT_DUMP") != "" {
+		fmt.Fprintf(os.Stderr, "OBL\t%s\t%s\t%s\t%s\t%s\n", verdict, rule, fn, construct, detail)
+	}
 	if fn != "" {
 		r.FnsSeen[fn] = true
 	}
